@@ -86,10 +86,27 @@ pub fn list_of_n(n: Int, fuzz_a: Fuzzer<a>) -> Fuzzer<List<a>> {
 pub fn list_of(fuzz_a: Fuzzer<a>) -> Fuzzer<List<a>> {
   and_then(byte(), fn(n) { list_of_n(n % 4, fuzz_a) })
 }
+
+/// a partial fuzzer: aborts on about one draw in eleven
+pub fn crashy() -> Fuzzer<Int> {
+  and_then(
+    byte(),
+    fn(n) {
+      if n % 11 == 0 {
+        fail
+      } else {
+        constant(n)
+      }
+    },
+  )
+}
 "#;
 
 /// (name, fuzzer expression, argument pattern, body)
-const PROPS: [(&str, &str, &str, &str); 6] = [
+const PROPS: [(&str, &str, &str, &str); 8] = [
+    // partial fuzzer: the run ends with a fuzzer error unless an input is kept first
+    ("crashy_never", "crashy()", "n", "n >= 0"),
+    ("crashy_even", "crashy()", "n", "n % 2 == 0"),
     ("even", "byte()", "n", "n % 2 == 0"),
     ("small", "byte()", "n", "n < 200"),
     ("short", "list_of(byte())", "xs", "length(xs) < 2"),
@@ -101,7 +118,7 @@ const PROPS: [(&str, &str, &str, &str); 6] = [
 const MODES: [(&str, &str); 3] = [("plain", ""), ("fail", " fail"), ("once", " fail once")];
 
 pub fn test_module() -> String {
-    let mut s = String::from("use fuzz.{both, byte, list_of}\n\nfn length(xs: List<a>) -> Int {\n  when xs is {\n    [] -> 0\n    [_, ..rest] -> 1 + length(rest)\n  }\n}\n\nfn sum(xs: List<Int>) -> Int {\n  when xs is {\n    [] -> 0\n    [x, ..rest] -> x + sum(rest)\n  }\n}\n");
+    let mut s = String::from("use fuzz.{both, byte, crashy, list_of}\n\nfn length(xs: List<a>) -> Int {\n  when xs is {\n    [] -> 0\n    [_, ..rest] -> 1 + length(rest)\n  }\n}\n\nfn sum(xs: List<Int>) -> Int {\n  when xs is {\n    [] -> 0\n    [x, ..rest] -> x + sum(rest)\n  }\n}\n");
     for (name, fz, pat, body) in PROPS {
         for (mname, kw) in MODES {
             s.push_str(&format!("\ntest p_{name}_{mname}({pat} via {fz}){kw} {{\n  {body}\n}}\n"));
@@ -164,10 +181,19 @@ pub fn check_one(pt: &PropertyTest, seed: u32, n: usize, violations: &mut Vec<Vi
     let mut prng = Prng::from_seed(seed);
     let mut first_kept: Option<(usize, Vec<u8>, uplc::PlutusData)> = None;
     let mut iters = 0u64;
+    // iteration at which the fuzzer itself aborts before any input had to be kept
+    let mut crashed: Option<usize> = None;
     for i in 1..=n {
-        let Ok(Some((next, value))) = prng.sample(&pt.fuzzer.program) else {
-            violations.push(Violation { signature: format!("fuzzer-fails|{name}"), what: format!("{name}: the compiled fuzzer does not produce a value from a seeded PRNG (seed {seed}, iteration {i})"), case: case.clone() });
-            return (0, 0);
+        let (next, value) = match prng.sample(&pt.fuzzer.program) {
+            Ok(Some(x)) => x,
+            Err(_) if name.contains("crashy") => {
+                crashed = Some(i);
+                break;
+            }
+            _ => {
+                violations.push(Violation { signature: format!("fuzzer-fails|{name}"), what: format!("{name}: the compiled fuzzer does not produce a value from a seeded PRNG (seed {seed}, iteration {i})"), case: case.clone() });
+                return (0, 0);
+            }
         };
         iters += 1;
         let failure = fails_on(pt, &value, &pv);
@@ -199,6 +225,20 @@ pub fn check_one(pt: &PropertyTest, seed: u32, n: usize, violations: &mut Vec<Vi
     };
     if format!("{:?}", a) != format!("{:?}", b) {
         violations.push(Violation { signature: format!("not-reproducible|{mode}"), what: format!("{name}: two runs with seed {seed} differ: {:?} vs {:?}", a, b), case: case.clone() });
+    }
+    if let Some(i) = crashed {
+        // the fuzzer aborts at iteration i: the run must end with a fuzzer error, and such a
+        // run is not a success under any expectation
+        outcomes.insert(format!("{name}:crash:{i}"));
+        if let Ok((iterations, ce, _)) = &a {
+            violations.push(Violation { signature: format!("fuzzer-crash-ignored|{mode}"), what: format!("{name} (seed {seed}): the fuzzer aborts at iteration {i} but the run reports {iterations} iterations and {:?}", ce), case: case.clone() });
+        }
+        if let Ok(r) = guarded(|| pt.clone().run(seed, n, &pv)) {
+            if TestResult::<(), uplc::PlutusData>::PropertyTestResult(r).is_success() {
+                violations.push(Violation { signature: format!("verdict|crashed-fuzzer-counts-as-success|{mode}"), what: format!("{name} (seed {seed}, {mode}): the fuzzer aborts at iteration {i} before any input had to be kept, yet is_success() = true"), case });
+            }
+        }
+        return (1, iters);
     }
     let Ok((iterations, ce, _labels)) = a else {
         violations.push(Violation { signature: format!("fuzzer-error|{name}"), what: format!("{name} (seed {seed}): {:?}", a.err()), case });
